@@ -17,9 +17,12 @@ func newAttributesInfo(attributes []px.Attribute, requiredCount int, equality []
 		posToName[ix] = at.Name()
 	}
 
-	ei := make([]int, len(equality))
-	for ix, e := range equality {
-		ei[ix] = nameToPos[e]
+	ei := make([]int, 0, len(equality))
+	for _, e := range equality {
+		// An attribute without a position (derived, or left out of the serialization) has no stored value to compare
+		if ix, ok := nameToPos[e]; ok {
+			ei = append(ei, ix)
+		}
 	}
 
 	return &attributesInfo{attributes: attributes, nameToPos: nameToPos, equalityAttributeIndexes: ei, requiredCount: requiredCount}
